@@ -181,12 +181,14 @@ class Traced(object):
         self.nrec = 0
 
 
-def run_traced(house, events, tick=0.125, horizon=40, stamp=0.0, interrupt_at=None, interrupt_exc=None, limit=20.0):
+def run_traced(house, events, tick=0.125, horizon=40, stamp=0.0, interrupt_at=None, interrupt_exc=None, limit=20.0,
+               res=None):
     """Run a (built or hand-made) house under the real Skedder with every scheduled tasker's
     runner wrapped by SendProxy.  `events` is the list the recorder doer appends to.
     `interrupt_at=k`: the changeStamp call that would begin tick k raises `interrupt_exc`
     (KeyboardInterrupt by default): an interrupt between ticks k-1 and k."""
-    res = Traced()
+    if res is None:
+        res = Traced()
     del events[:]
     store = house.store
     real_change = store.changeStamp
